@@ -607,6 +607,27 @@ def run(ctx: Any, prog: Program) -> None:
             tok_vars = {t.id for a in ast.walk(parse) if isinstance(a, ast.Assign) and any(c is a.value or c in ast.walk(a.value) for c in tcalls) for t in a.targets if isinstance(t, ast.Name)} | {'tokenizer'}
             ok = isinstance(n.exc, ast.Call) and (dotted(n.exc.func) == 'KeyValError' or (isinstance(n.exc.func, ast.Attribute) and n.exc.func.attr == 'error' and dotted(n.exc.func.value) in tok_vars))
             ctx.check('C03.K5', ok, kv, n, 'Keyvalues.parse may raise only tokenizer.error(...) or KeyValError(...)')
+    # implicit ValueError: BaseTokenizer.push_back raises ValueError (not the syntax error type) when it is given a value-carrying token
+    # without its value.  A token that parse() took from the tokenizer may be any token (the input decides), so it goes back together with
+    # the value it came with; the one-argument form is fine for a literal operator token only.
+    pb = tk.func('BaseTokenizer.push_back')
+    pb_raises_value = any(isinstance(r, ast.Raise) and isinstance(r.exc, ast.Call) and dotted(r.exc.func) == 'ValueError' for r in ast.walk(pb))
+    ctx.shape('C03.K5', pb_raises_value and len(pb.args.args) == 3, tk, pb, 'BaseTokenizer.push_back(tok, value=None) raises ValueError for a missing value', func='BaseTokenizer.push_back', text='push_back contract')
+    try:
+        op_vals = Folder(prog, tk).global_('_OPERATOR_VALS')
+        op_names = {getattr(k_, 'name', None) for k_ in op_vals}
+    except Exception:          # noqa: BLE001
+        op_names = set()
+    n_pb = 0
+    for c in walk_no_nested(parse):
+        if isinstance(c, ast.Call) and isinstance(c.func, ast.Attribute) and c.func.attr == 'push_back' and dotted(c.func.value) in ('tokenizer',):
+            n_pb += 1
+            tok_a = c.args[0] if c.args else None
+            has_val = len(c.args) >= 2 or any(k.arg == 'value' for k in c.keywords)
+            literal_op = isinstance(tok_a, ast.Attribute) and dotted(tok_a.value) == 'Token' and tok_a.attr in op_names
+            ctx.check('C03.K5', has_val or literal_op, kv, c, f'`{U(c)}` hands back a token taken from the input without its value: when that token is a PAREN_ARGS, DIRECTIVE, STRING or PROP_FLAG '
+                      'push_back raises a plain ValueError ("Value required"), which is not the KeyValError parse() promises for malformed text', func='Keyvalues.parse', text='push_back(token, value)')
+    ctx.shape('C03.K5', n_pb >= 2, kv, parse, f'{n_pb} push_back calls in Keyvalues.parse (3 confirmed by hand)', func='Keyvalues.parse', text='push_back calls')
     # implicit IndexError: every constant-index read of a sequence in Keyvalues.parse is inside `try ... except IndexError`, or behind a
     # non-emptiness test of that sequence (earlier operand of the same `and`, an enclosing `if`, or a preceding `if not seq: raise/return`)
     def _seq_names(node: ast.AST) -> Set[str]:
@@ -736,6 +757,7 @@ def _guarded_by_nonstr(mod: Any, n: ast.AST) -> bool:
 
 
 MUTANTS = [
+    {'id': 'push_back_without_value', 'file': 'keyvalues.py', 'find': "                    tokenizer.push_back(prop_type, prop_value)", 'replace': "                    tokenizer.push_back(prop_type)", 'expect': 'C03.K5'},
     {'id': 'skipped_block_without_line_num', 'file': 'keyvalues.py', 'find': "                    cur_block.line_num = None  # Not used, but make sure to keep it valid.\n", 'replace': "", 'expect': 'C03.K5'},
     {'id': 'init_collapses_crlf_for_str_only', 'file': 'tokenizer.py', 'find': "        if isinstance(data, str):\n            self._cur_chunk = data\n", 'replace': "        if isinstance(data, str):\n            self._cur_chunk = data.replace('\\r\\n', '\\n')\n", 'expect': 'C03.K1'},
     {'id': 'expect_error_template_from_token_text', 'file': 'tokenizer.py', 'find': "            raise self.error(\n                'Expected {}, but got {}!',\n                token,\n                next_token,\n            )", 'replace': "            message = 'Expected {}, but got {}'\n            if next_token.has_value:\n                message += f' = \"{value}\"'\n            raise self.error(message + '!', token, next_token)", 'expect': 'C03.K5'},
